@@ -318,6 +318,7 @@ _RULE_EXTRA = {
     "C01": "; plus one size-boundary table per run (1 044 481 rows = 4097 blocks, 8 workers), read back in aggregate",
     "C03": "; plus the size-boundary table (4097 blocks)",
     "C05": "; 1 in 4 keyed tuples with column-changing branches (add / remove / move columns per branch, shared new names), judged by column name; 1 in 4 with an all-empty key",
+    "C06": "; block indices built by IndexBlock (0..5 or 255 rows, keyed or keyless): written, read, re-written, stored, fetched, compared with the Lean codec; table profiles of real ingests decoded and re-encoded (no Lean model of the profile: re-encoding clauses only)",
     "C07": "; 1 in 5 extra tables header-only",
     "C11": "; walks from 3..5 start points with a repeated one",
     "C13": "; every write position also as a single injected write error (the operation continues): consistency, error reported or harmless, re-run",
@@ -330,3 +331,14 @@ _RULE_EXTRA = {
 }
 for _k, _v in _RULE_EXTRA.items():
     PROPS[_k]["rule"] = PROPS[_k]["rule"] + _v
+
+# thorough tier sized so that each property's run takes a few minutes on 16 cores
+_THOROUGH_N = {'C01': 12000, 'C02': 6000, 'C03': 12000, 'C04': 10000, 'C05': 24000, 'C06': 80000, 'C07': 24000, 'C08': 80000, 'C09': 5000, 'C10': 4000, 'C11': 40000, 'C12': 48000, 'C13': 10000, 'C14': 64000, 'C15': 48000, 'C16': 2400, 'C17': 40000, 'C18': 48000, 'C19': 14000, 'C20': 40000}
+for _k, _v in _THOROUGH_N.items():
+    PROPS[_k]['thorough_n'] = _v
+
+# the widened search that follows a broken proof / correspondence keeps its earlier size
+_WIDEN_N = {'C11': 6000, 'C04': 2500, 'C06': 24000, 'C19': 4000, 'C01': 3000, 'C02': 1500, 'C03': 3000, 'C20': 8000, 'C15': 6000,
+            'C18': 6000, 'C05': 4000, 'C08': 10000, 'C07': 2500, 'C12': 6000, 'C14': 8000, 'C13': 1500, 'C16': 600, 'C09': 800, 'C10': 800}
+for _k, _v in _WIDEN_N.items():
+    PROPS[_k].setdefault('widen_n', _v)
